@@ -20,6 +20,10 @@ CLAIMED = {
    text="Kernel-checked theorems over any commutative ring and all sizes: the amplitude specification (multiset expansion permS) equals the textbook Laplace permanent of the explicit submatrix U[t|s] (permR_permS); the model of Naive (_compute_submatrix + permanent, with its n=0 / n-differs special cases) equals it; the SLOS coefficient recursion times prod t! equals it (bunched inputs/outputs included); amplitudes vanish when photon numbers differ; pruning the SLOS state space by any FSMask-style mask (closed under removing a photon) leaves the values of kept states unchanged. Every engine of /repo (Naive, SLOS, SLAP, MPS at full bond dimension, Stepper) is compared on every run with the extracted specification on all output states of sampled (circuit, input) pairs, bulk order, exact mass 1, masks, white-box submatrix and SLOS coefficients.",
    note="All theorems closed under the global context. SLAP, MPS and the native SLOS layer / permanent_cx have no algorithmic model: they are compared with the proved specification only. Full-distribution normalisation for all n is checked exactly per instance (mass = 1 as rationals), not proved.",
    tech="Coq proof (Laplace permanent = multiset expansion = SLOS recursion; mask soundness) + extracted-spec differential correspondence on all engines"),
+ "C06": dict(cat="proof", ref="DESIGN.md §7 C06",
+   text="Kernel-checked theorems over all admissible rational parameters (the two square roots the code takes enter as parameters with r^2 = 1-2*px*g2 and s^2 = indistinguishability as hypotheses), all tag-counter values and all expected inputs: p1+p2 = brightness; 2*p2/(p1+2*p2)^2 = g2; every weight of the one-photon distribution is >= 0 and they sum to 1; its photon-number marginal is the binomial thinning of (1-px, p1, p2) by the transmittance; the distribution of n photons in a mode and of a whole input state has mass 1 (induction on photons and modes) and the code's normalize() is the identity; a perfect source returns the requested state; NoiseModel->Source field mapping; the per-photon law of the event sampler and of the distribution builder agree on every class of annotation lists up to tag renaming; two signal photons share a tag with probability = indistinguishability; the event table's entries are the multinomial probabilities, which satisfy the independent-draws recurrence, are complete on events of non-zero probability, sum to 1, and the filter divides the restriction by the kept mass, reported as physical performance. The model is tied to /repo on every run: _get_probs, _generate_one_photon_distribution, probability_distribution, generate_distribution, Processor.source_distribution via NoiseModel, _compute_prob_table, and generate_samples (with/without filter) by a goodness-of-fit test against the model's exact probabilities.",
+   note="All theorems closed under the global context. The g2 identity is stated over Qc with the root as a hypothesis (no Reals version). The equality 'photon-count marginal of generate_distribution = event table' is checked exactly per instance by the driver (model kept mass = model table phys_perf as rationals), not proved for all n. exqalibur merge/tensor/sample kernels have no model: compared with the model only. The sampler is tied statistically (chi-square, level 1e-9 per configuration).",
+   tech="Coq proof over Qc (nra on Q for the bounds, induction for the tensor and the multinomial table) + extracted-model differential correspondence + exact-expectation goodness-of-fit for the sampler"),
 }
 REASON_PENDING = "not yet built in this development (see DESIGN.md §10 for the build order); no check is claimed"
 
